@@ -5,15 +5,14 @@ Import ListNotations.
 Local Open Scope N_scope.
 
 Section C4. Variable cfg : config.
-Hypothesis R : rt_ok cfg.
+Hypothesis Hasc : tbl_ascii_ok cfg = true.
+Hypothesis Hksp : key_special_ascii cfg = true.
 Hypothesis Hscan : scan_lower_ne cfg = true.
 Hypothesis Hsa : scan_ascii_ok cfg = true.
 Hypothesis Hfix : tbl_img_fixed cfg = true.
 Hypothesis Hsc : tbl_img_scalar cfg = true.
 Hypothesis Hnc : tbl_no_comma cfg = true.
 Hypothesis Hck : valid_key cfg s_checksum = true.
-Let Hasc := rt_asc cfg R.
-Let Hksp := rt_ksp cfg R.
 
 (* the documented form of a canonical checksum value *)
 Definition no_ascii_upper (s : bytes) : Prop := Forall (fun b => is_upper_ascii b = false) s.
@@ -24,12 +23,25 @@ Definition checksum_canonical (v : bytes) : Prop :=
 
 Lemma mal_no_upper s : no_ascii_upper (make_ascii_lowercase s).
 Proof. apply Forall_forall. intros b Hb. apply in_map_iff in Hb. destruct Hb as (b0 & <- & _). destruct b0; reflexivity. Qed.
+(* whichever form the scan has (as long as it agrees with ASCII upper-case on ASCII): the result has no ASCII upper-case letter *)
+Lemma scan_lower_no_hits cs : scan cfg cs SLower = SLower -> Forall (fun c => scan_hit cfg c = false) cs.
+Proof.
+  induction cs as [|c cs IH]; cbn [scan]; [constructor|]. destruct (scan_hit cfg c) eqn:Eh.
+  - destruct (c <? 128); [|discriminate]. intros H. pose proof (scan_outcome cfg cs SMixedAscii) as O. rewrite H in O. discriminate O.
+  - intros H. constructor; [exact Eh|apply IH; exact H].
+Qed.
 Lemma lower_no_upper a : utf8_valid a = true -> no_ascii_upper (lowercase_str cfg a).
 Proof.
-  intros Hv. rewrite (lowercase_str_spec cfg Hasc Hscan a Hv). apply Forall_forall. intros b Hb.
-  destruct (is_upper_ascii b) eqn:E; [|reflexivity]. exfalso. assert (Hlt : bn b < 128) by (unfold is_upper_ascii, inr in E; lia).
-  apply (in_bytes_chars _ b (utf8_valid_spec_lower cfg Hsc a Hv) Hlt) in Hb. rewrite (chars_spec_lower cfg Hsc a Hv) in Hb.
-  apply in_flat_map in Hb. destruct Hb as (c & _ & Hd). pose proof (img_not_ascii_upper cfg Hasc Hfix c (bn b) Hd) as Hn. unfold is_upper_ascii in E. congruence.
+  intros Hv. unfold lowercase_str. destruct (scan cfg (chars a) SLower) eqn:Es.
+  - apply scan_lower_no_hits in Es. apply Forall_forall. intros b Hb. destruct (is_upper_ascii b) eqn:E; [|reflexivity]. exfalso.
+    assert (Hlt : bn b < 128) by (unfold is_upper_ascii, inr in E; lia).
+    apply (in_bytes_chars a b Hv Hlt) in Hb. rewrite Forall_forall in Es. specialize (Es _ Hb). rewrite (scan_hit_ascii cfg Hsa (bn b) Hlt) in Es. unfold is_upper_ascii in E. congruence.
+  - apply mal_no_upper.
+  - apply Forall_forall. intros b Hb.
+    destruct (is_upper_ascii b) eqn:E; [|reflexivity]. exfalso. assert (Hlt : bn b < 128) by (unfold is_upper_ascii, inr in E; lia).
+    fold (spec_lower cfg a) in Hb.
+    apply (in_bytes_chars _ b (utf8_valid_spec_lower cfg Hsc a Hv) Hlt) in Hb. rewrite (chars_spec_lower cfg Hsc a Hv) in Hb.
+    apply in_flat_map in Hb. destruct Hb as (c & _ & Hd). pose proof (img_not_ascii_upper cfg Hasc Hfix c (bn b) Hd) as Hn. unfold is_upper_ascii in E. congruence.
 Qed.
 Lemma parsed_algs_no_upper items es : Forall2 (fun it e => parse_item cfg it = Some e) items es ->
   Forall (fun p => utf8_valid p = true) items -> Forall (fun e => no_ascii_upper (fst e)) es.
@@ -61,15 +73,14 @@ Print Assumptions checksum_text_canonical.
 
 (* ---------------- C04: what build() hands out ---------------- *)
 Section C4b. Variable cfg : config.
-Hypothesis R : rt_ok cfg.
+Hypothesis Hasc : tbl_ascii_ok cfg = true.
+Hypothesis Hksp : key_special_ascii cfg = true.
 Hypothesis Hscan : scan_lower_ne cfg = true.
 Hypothesis Hsa : scan_ascii_ok cfg = true.
 Hypothesis Hfix : tbl_img_fixed cfg = true.
 Hypothesis Hsc : tbl_img_scalar cfg = true.
 Hypothesis Hnc : tbl_no_comma cfg = true.
 Hypothesis Hck : valid_key cfg s_checksum = true.
-Let Hasc := rt_asc cfg R.
-Let Hksp := rt_ksp cfg R.
 Context {T E : Type} (sh : shape T E).
 
 Theorem build_checksum_canonical t p t' p' : finish_stable sh -> fields_valid cfg p -> build cfg sh t p = Ok (t', p') ->
@@ -84,7 +95,7 @@ Proof.
     destruct (cs_try_from cfg v0) as [m|e] eqn:Ep; [|discriminate]. destruct (cs_to_text m) as [txt|e] eqn:Et; [|discriminate].
     destruct (q_insert cfg (p_quals p) s_checksum txt) as [q2|e] eqn:Ei; [|discriminate]. intros [= <- <-] v Hv.
     cbn [p_quals with_quals] in Hv. rewrite (q_get_insert_same cfg Hasc Hksp _ _ _ _ HQ Ei) in Hv. injection Hv as <-.
-    eapply (checksum_text_canonical cfg R Hscan Hsa Hfix Hsc Hnc); eassumption.
+    eapply (checksum_text_canonical cfg); eassumption.
   - intros [= <- <-] v Hv. cbn [p_quals with_quals] in Hv. congruence.
 Qed.
 (* every pair of the collection is found under its own key *)
